@@ -99,6 +99,8 @@ type ContractDB struct {
 	sweeps     map[*packages.Package]*sweepSpec
 	typeInvs   map[string][]typeInv // "pkgpath.TypeName" -> invariants
 	frameProps map[string][]string  // heap array key -> extra properties of its frame obligations
+	umbrella   map[string][]string  // property -> properties whose obligations it includes
+	stale      []string             // clauses dropped because they name something the code no longer has
 }
 
 type typeInv struct {
@@ -137,7 +139,7 @@ func parseClauseHead(rest string) (props []string, label, text string) {
 }
 
 func loadContracts(prog *ssa.Program, pkgs []*packages.Package) *ContractDB {
-	db := &ContractDB{byFn: map[*ssa.Function]*Contract{}, byKey: map[string]*Contract{}, files: map[*packages.Package]*ast.File{}, fset: prog.Fset, sweeps: map[*packages.Package]*sweepSpec{}, typeInvs: map[string][]typeInv{}, frameProps: map[string][]string{}}
+	db := &ContractDB{byFn: map[*ssa.Function]*Contract{}, byKey: map[string]*Contract{}, files: map[*packages.Package]*ast.File{}, fset: prog.Fset, sweeps: map[*packages.Package]*sweepSpec{}, typeInvs: map[string][]typeInv{}, frameProps: map[string][]string{}, umbrella: map[string][]string{}}
 	for _, pkg := range pkgs {
 		for i, f := range pkg.Syntax {
 			name := pkg.CompiledGoFiles[i]
@@ -154,8 +156,27 @@ func loadContracts(prog *ssa.Program, pkgs []*packages.Package) *ContractDB {
 }
 
 func (db *ContractDB) errorf(format string, a ...any) {
-	db.errors = append(db.errors, fmt.Sprintf(format, a...))
+	msg := fmt.Sprintf(format, a...)
+	if i := strings.Index(msg, staleMark); i >= 0 {
+		// a clause that names something the code no longer has is dropped, not
+		// fatal: the rest of the contract is still checked (see stale)
+		msg = strings.TrimSpace(msg[:i] + msg[i+len(staleMark):])
+		for _, s := range db.stale {
+			if s == msg {
+				return
+			}
+		}
+		db.stale = append(db.stale, msg)
+		return
+	}
+	db.errors = append(db.errors, msg)
 }
+
+// staleMark tags the error of a clause (or contract block) that refers to a
+// name the current code does not have: a renamed local, a removed loop, a
+// renamed unexported function. Such a clause cannot be checked; it is
+// reported as STALE-CLAUSE and left out, and the run cannot be proof-level.
+const staleMark = "[stale]"
 
 func (db *ContractDB) parseFile(prog *ssa.Program, pkg *packages.Package, f *ast.File, fname string) {
 	var cur *Contract
@@ -197,7 +218,7 @@ func (db *ContractDB) parseFile(prog *ssa.Program, pkg *packages.Package, f *ast
 				lem = nil
 				fn := resolveFunc(prog, pkg, rest)
 				if fn == nil {
-					db.errorf("%s: contracted function %q not found in package %s", where, rest, pkg.PkgPath)
+					db.errorf("%s %s: contracted function %q not found in package %s (its contract block is left out)", staleMark, where, rest, pkg.PkgPath)
 					cur = &Contract{Key: "?" + rest, Pkg: pkg}
 					continue
 				}
@@ -214,6 +235,13 @@ func (db *ContractDB) parseFile(prog *ssa.Program, pkg *packages.Package, f *ast
 				props, label, text := parseClauseHead(strings.TrimSpace(r2))
 				key := pkg.PkgPath + "." + strings.TrimSuffix(tn, ":")
 				db.typeInvs[key] = append(db.typeInvs[key], typeInv{label: label, text: text, props: props, line: where})
+			case "umbrella":
+				// umbrella C01 C07 C10 …: the check of the first property also runs the
+				// obligations of the others (it is stated as their conjunction)
+				fs := strings.Fields(rest)
+				if len(fs) >= 2 {
+					db.umbrella[fs[0]] = append(db.umbrella[fs[0]], fs[1:]...)
+				}
 			case "grammar":
 				// read by the extraction of the grammar actions (actions.go)
 			case "frameprops":
@@ -637,6 +665,10 @@ func (db *ContractDB) compile(cl *Clause, pkg *packages.Package, resolve nameRes
 		pos = file.Decls[len(file.Decls)-1].End()
 	}
 	if err := types.CheckExpr(db.fset, pkg.Types, pos, we, info); err != nil {
+		if strings.Contains(err.Error(), "undefined:") {
+			cl.err = fmt.Errorf("%s %s: clause %q names something the code no longer has (%v)", staleMark, cl.Line, truncate(cl.Text, 120), err)
+			return cl.err
+		}
 		cl.err = fmt.Errorf("%s: contract does not type-check: %v  [%s]", cl.Line, err, wrapped)
 		return cl.err
 	}
